@@ -113,3 +113,61 @@ func (c *Ctx) globalWriteScan(pkgPath string, invs []*Lemma) []*Obligation {
 	}
 	return out
 }
+
+// cellConstValues: the constant values a captured variable (an Alloc cell of the parent function) can hold:
+// every store to the cell, in the parent and in all closures that capture it, stores a constant.
+func cellConstValues(fn *ssa.Function, fvIdx int) ([]*ssa.Const, bool) {
+	parent := fn.Parent()
+	if parent == nil {
+		return nil, false
+	}
+	var cell *ssa.Alloc
+	for _, b := range parent.Blocks {
+		for _, in := range b.Instrs {
+			if mc, ok := in.(*ssa.MakeClosure); ok && mc.Fn == ssa.Value(fn) && fvIdx < len(mc.Bindings) {
+				cell, _ = mc.Bindings[fvIdx].(*ssa.Alloc)
+			}
+		}
+	}
+	if cell == nil {
+		return nil, false
+	}
+	var out []*ssa.Const
+	okAll := true
+	var scanStores func(addr ssa.Value, f *ssa.Function, depth int)
+	scanStores = func(addr ssa.Value, f *ssa.Function, depth int) {
+		for _, r := range *addr.Referrers() {
+			switch u := r.(type) {
+			case *ssa.Store:
+				if u.Addr == addr {
+					if c, ok := u.Val.(*ssa.Const); ok {
+						out = append(out, c)
+					} else {
+						okAll = false
+					}
+				} else {
+					okAll = false // the address itself is stored somewhere
+				}
+			case *ssa.MakeClosure:
+				cf := u.Fn.(*ssa.Function)
+				for j, b := range u.Bindings {
+					if b == addr && j < len(cf.FreeVars) {
+						if depth > 3 {
+							okAll = false
+						} else {
+							scanStores(cf.FreeVars[j], cf, depth+1)
+						}
+					}
+				}
+			case *ssa.UnOp, *ssa.DebugRef:
+			default:
+				okAll = false
+			}
+		}
+	}
+	scanStores(cell, parent, 0)
+	if !okAll || len(out) == 0 {
+		return nil, false
+	}
+	return out, true
+}
